@@ -5,6 +5,7 @@
    unbounded statement is tested by the oracle (evidence: tested_only). *)
 From Coq Require Import String ZArith Bool Arith List.
 From SV Require Import Names NamesFacts Rep Complex Homology Filtration Gen World Small Sweeps RepInv Shapes AddEffect CopyFaithful DelEffect Duality DeleteEffect VInv AwbSpec VReach VSets Restrict Lookup.
+From SV Require ClosedReach AttrInv AttrFrame.
 
 (* building by basis gives exactly the non-empty subsets of the given simplices, a well-formed
    complex whose views agree *)
@@ -156,3 +157,39 @@ Theorem C02_restrict_vertex_sets :
     (forall t, containsSimplex r' t = true -> sameset (basisOf r' t) (basisOf r t))).
 Proof. exact restrict_vertex_sets. Qed.
 Print Assumptions C02_restrict_vertex_sets.
+
+(* THE ATTRIBUTE FRAME.  AttrInv.ainv (every simplex has exactly one attribute dictionary, nothing else has one)
+   holds after every history of public operations (C15_attribute_table_invariant).  None of the operations below
+   takes the heap of dictionaries, so no content can change; which dictionary -- which object -- belongs to which
+   simplex is the table r_attr: *)
+(* an accepted addSimplex leaves every simplex that was there with the dictionary it had, and the new simplex has
+   the dictionary it was given, or one of the complex's own when none was given *)
+Theorem C02_add_attaches_the_given_attributes_and_keeps_the_others :
+  forall r fs id attr r' n, AttrInv.ainv r -> addSimplex r fs id attr = (r', Ok n) ->
+  (forall t, containsSimplex r t = true -> containsSimplex r' t = true /\ assoc t (r_attr r') = assoc t (r_attr r)) /\
+  exists h, assoc n (r_attr r') = Some h /\ (attr = Some h \/ (attr = None /\ fst h = r_uid r)).
+Proof. exact AttrFrame.addSimplex_attr. Qed.
+Print Assumptions C02_add_attaches_the_given_attributes_and_keeps_the_others.
+(* adding by basis, ensuring a basis and adding in bulk -- whatever their outcome -- leave every simplex that was
+   there in the complex, with the dictionary it had *)
+Theorem C02_additions_keep_the_attributes_of_what_was_there :
+  (forall r bs id attr r' x, AttrInv.ainv r -> c_addSimplexWithBasis r bs id attr = (r', x) -> AttrFrame.keeps_old r r') /\
+  (forall r bs attr r' x, AttrInv.ainv r -> c_ensureBasis r bs attr = (r', x) -> AttrFrame.keeps_old r r') /\
+  (forall r hp src rn hp' r' st x, AttrInv.ainv r -> addSimplicesFrom hp r src rn = (hp', r', st, x) -> AttrFrame.keeps_old r r').
+Proof.
+  split; [exact AttrFrame.addSimplexWithBasis_keeps_old|].
+  split; [exact AttrFrame.ensureBasis_keeps_old|exact AttrFrame.addSimplicesFrom_keeps_old].
+Qed.
+Print Assumptions C02_additions_keep_the_attributes_of_what_was_there.
+(* every deletion -- one simplex with its star, by basis, several, restriction to a basis -- whatever its outcome,
+   leaves every survivor a simplex of the original complex with the dictionary it had there *)
+Theorem C02_deletions_keep_the_attributes_of_the_survivors :
+  (forall r s r' x, AttrInv.ainv r -> deleteSimplex r s = (r', x) -> AttrFrame.survivors_keep r r') /\
+  (forall r bs r' x, AttrInv.ainv r -> deleteSimplexWithBasis r bs = (r', x) -> AttrFrame.survivors_keep r r') /\
+  (forall r ss r' x, AttrInv.ainv r -> deleteSimplices r ss = (r', x) -> AttrFrame.survivors_keep r r') /\
+  (forall r bs r' x, AttrInv.ainv r -> restrictBasisTo r bs = (r', x) -> AttrFrame.survivors_keep r r').
+Proof.
+  split; [exact AttrFrame.deleteSimplex_attr|]. split; [exact AttrFrame.deleteSimplexWithBasis_attr|].
+  split; [exact AttrFrame.deleteSimplices_attr|exact AttrFrame.restrictBasisTo_attr].
+Qed.
+Print Assumptions C02_deletions_keep_the_attributes_of_the_survivors.
